@@ -69,7 +69,9 @@ impl PayloadHandler for ServiceQueryRequestHandler {
             &NamingUtils::default_group(request.group_name.unwrap_or_default()),
             &request.service_name.unwrap_or_default(),
         );
-        let cmd = NamingCmd::QueryServiceInfo(key, cluster, true);
+        // only an absent flag falls back to the former behaviour (healthy instances only)
+        let healthy_only = request.healthy_only.unwrap_or(true);
+        let cmd = NamingCmd::QueryServiceInfo(key, cluster, healthy_only);
         match self.app_data.naming_addr.send(cmd).await {
             Ok(res) => {
                 let result: NamingResult = res.unwrap();
